@@ -103,6 +103,9 @@ func (s *netStub) GetVertex(ctx context.Context, in *pb.SignedHash, _ ...grpc.Ca
 	return nil, fmt.Errorf("not served")
 }
 
+// vnetPipeSize: buffer of the notary -> gossip hand-over (800 in cmd/node)
+var vnetPipeSize uint16 = 100
+
 func newVnet(c *Ctx, n int, adj [][]int, honest []bool, isTrx bool) *vnet {
 	w := NewWorld(c)
 	w.quiet = true
@@ -128,7 +131,7 @@ func newVnet(c *Ctx, n int, adj [][]int, honest []bool, isTrx bool) *vnet {
 		if err != nil {
 			panic(err)
 		}
-		pp := pipe.New(100, 100)
+		pp := pipe.New(vnetPipeSize, vnetPipeSize)
 		bk := &cntBook{AccountingBook: v.nodes[i].ab}
 		g := gossip.VerifNewGossiper(nopLog{}, time.Second, recSigner{v.nodes[i].w}, w.ver, bk, hc, fl, pp, fmt.Sprintf("url-%d", i))
 		v.books = append(v.books, bk)
@@ -171,7 +174,7 @@ func (v *vnet) entrySym(g *pb.Gossiper) string {
 	named := v.nodeOf(g.Address)
 	signer := 98
 	forThis := 0
-	if p, ok := sigLog[string(g.Signature)]; ok && len(g.Signature) > 0 {
+	if p, ok := sigLogGet(g.Signature); ok && len(g.Signature) > 0 {
 		for i, n := range v.nodes {
 			if bytes.Equal(n.w.Public, p.key) {
 				signer = i
@@ -892,6 +895,93 @@ func init() {
 						break
 					}
 				}
+			}
+			v.close()
+		}
+		// ---- a burst of locally accepted items at one node, far more than the hand-over buffer between the
+		// notary and the gossip origin loops holds: every one of them must still reach the neighbour
+		{
+			vnetPipeSize = 4
+			v := newVnet(c, 2, [][]int{{1}, {0}}, []bool{true, true}, false)
+			vnetPipeSize = 100
+			v.silent = true
+			ctx, cancel := context.WithCancel(context.Background())
+			v.gsp[0].RunOrigin(ctx)
+			rich, other := v.w.wallets[0], v.w.wallets[1]
+			burst := 150
+			wantV, wantT := map[[32]byte]bool{}, map[[32]byte]bool{}
+			var vxs []*accountant.Vertex
+			var pts []*pb.Transaction
+			for i := 0; i < burst; i++ {
+				t, _ := transaction.New("pay", spice.Melange{SupplementaryCurrency: uint64(i + 1)}, nil, other.Address(), recSigner{rich})
+				if vx, err := v.nodes[0].ab.CreateLeaf(context.Background(), &t); err == nil {
+					wantV[vx.Hash] = true
+					cp := vx
+					vxs = append(vxs, &cp)
+				}
+				ct, _ := transaction.New("deal", spice.Melange{}, []byte{byte(i), byte(i >> 8)}, other.Address(), recSigner{rich})
+				if v.caches[0].SaveAwaitedTransaction(&ct) == nil {
+					if p, err := transformers.TrxToProtoTrx(ct); err == nil {
+						wantT[ct.Hash] = true
+						pts = append(pts, p)
+					}
+				}
+			}
+			// the burst itself: everything handed over back to back
+			for _, vx := range vxs {
+				v.pipes[0].SendVrx(vx)
+			}
+			for _, p := range pts {
+				v.pipes[0].SendTrx(p)
+			}
+			gotV, gotT := map[[32]byte]int{}, map[[32]byte]int{}
+			deadline := time.Now().Add(15 * time.Second)
+			for time.Now().Before(deadline) {
+				v.mux.Lock()
+				fr := v.fresh
+				v.fresh = nil
+				v.mux.Unlock()
+				for _, m := range fr {
+					if m.vrx != nil && len(m.vrx.Vertex.Hash) == 32 {
+						gotV[[32]byte(m.vrx.Vertex.Hash)]++
+					}
+					if m.trx != nil && len(m.trx.Trx.Hash) == 32 {
+						gotT[[32]byte(m.trx.Trx.Hash)]++
+					}
+				}
+				if len(gotV) >= len(wantV) && len(gotT) >= len(wantT) {
+					break
+				}
+				time.Sleep(2 * time.Millisecond)
+			}
+			cancel()
+			c.Rep.Evals++
+			c.Count("burst-at-origin")
+			c.Distinct(fmt.Sprintf("burst-at-origin/%d", burst))
+			missV, missT, dup := 0, 0, 0
+			for h := range wantV {
+				if gotV[h] == 0 {
+					missV++
+				}
+				if gotV[h] > 1 {
+					dup++
+				}
+			}
+			for h := range wantT {
+				if gotT[h] == 0 {
+					missT++
+				}
+				if gotT[h] > 1 {
+					dup++
+				}
+			}
+			if missV+missT > 0 {
+				c.Violate("C11", "burst-at-origin-items-never-gossiped", fmt.Sprintf("a burst of %d vertices and %d awaiting transactions accepted at one node (hand-over buffer 4): %d vertices and %d transactions never reached its only neighbour", len(wantV), len(wantT), missV, missT),
+					map[string]interface{}{"section": "gossip", "scenario": "burst-at-origin", "burst": burst})
+			}
+			if dup > 0 {
+				c.Violate("C11", "burst-at-origin-items-gossiped-twice", fmt.Sprintf("%d items of the burst were sent to the neighbour more than once", dup),
+					map[string]interface{}{"section": "gossip", "scenario": "burst-at-origin", "burst": burst})
 			}
 			v.close()
 		}
